@@ -18,6 +18,7 @@ SCRATCH_ROOT = os.environ.get("VERIF_SCRATCH", "/var/tmp/verif")  # developer ru
 CACHE = os.environ.get("VERIF_CACHE", os.path.join(VERIF, ".cache"))
 KANI_TARGET = os.path.join(CACHE, "kani-target")
 NATIVE_TARGET = os.path.join(CACHE, "native-target")
+BINS_TARGET = os.path.join(CACHE, "bins-target")
 REPLAY_DIR = os.environ.get("VERIF_REPLAY_DIR", os.path.join(VERIF, "replay"))
 EVIDENCE_DIR = os.environ.get("VERIF_EVIDENCE_DIR", os.path.join(VERIF, "evidence"))
 FINDINGS_FILE = os.path.join(VERIF, "known-findings.txt")
@@ -129,7 +130,13 @@ MODULE_HOOKS = [
     ("bemodel/src/convert/from_ctehexml.rs", "verif_convert", "convert.rs"),
     ("climate/src/lib.rs", "verif_climate", "climate.rs"),
     ("hulc/src/bdl/envelope/geom.rs", "verif_hulc_geom", "hulc_geom.rs"),
+    ("hulc2model/src/lib.rs", "verif_hulc2model", "hulc2model.rs"),
+    ("hulc/src/bdl/mod.rs", "verif_hulc_bdl", "hulc_bdl.rs"),
 ]
+
+# developer switch: extra hooks "rel:mod:file,..." tried out before they are registered above
+for _h in filter(None, os.environ.get("VERIF_DEV_HOOKS", "").split(",")):
+    MODULE_HOOKS.append(tuple(_h.split(":")))
 
 CFG = "any(kani, verif_native)"
 
